@@ -175,6 +175,7 @@ func c04syntheticModule() map[string]ugo.Object {
 		"undef": ugo.Undefined, "bytes": ugo.Bytes{1, 2, 3}, "bempty": ugo.Bytes{}, "arr": ugo.Array{ugo.Int(1), ugo.String("x"), ugo.Array{}},
 		"aempty": ugo.Array{}, "map": ugo.Map{"k": ugo.Int(1), "n": ugo.Map{}, "": ugo.String("empty key, nested")}, "mempty": ugo.Map{},
 		"": ugo.String("attribute with the empty name"), " ": ugo.Int(32), "ключ": ugo.String("non-ascii key"),
+		"syncempty": &ugo.SyncMap{Value: ugo.Map{}}, "syncempty2": &ugo.SyncMap{Value: ugo.Map{}}, "mempty2": ugo.Map{}, "nestedempties": ugo.Array{ugo.Map{}, &ugo.SyncMap{Value: ugo.Map{}}, ugo.Map{}, ugo.Array{}, ugo.Bytes{}},
 		"smapkeys": &ugo.SyncMap{Value: ugo.Map{"": ugo.Int(1), "a": ugo.Int(2), "b": ugo.Int(3)}},
 		"err":      &ugo.Error{Name: "ModErr", Message: "m"}, "sync": &ugo.SyncMap{Value: ugo.Map{"a": ugo.Int(1)}},
 		"fn":  &ugo.Function{Name: "fn", Value: func(a ...ugo.Object) (ugo.Object, error) { return ugo.Int(len(a)), nil }},
@@ -208,7 +209,7 @@ var c04mixedModules = []string{
 	"global L\nparam p\nk := {lit: [1, {deep: 2}]}\nf := func() {\n  return import(\"plainmap\").v\n}\nt := import(\"time\")\nj := import(\"json\")\nreturn [k, f(), string(j.Marshal(k)), t.Second > 0, import(\"fmt\").Sprintf(\"%d\", 5)]\n",
 }
 
-const c04synthUser = "global L\nparam p\nm := import(\"synth\")\nr := [m.izero, m.ione, m.uzero, m.fzero, m.fneg, m.czero, m.ca, m.sempty, m.s, m.t, m.f, m.undef, m.bytes, m.bempty, m.arr, m.aempty, m.map, m.mempty, string(m.err), m.sync, m.fn(1, 2), m.bfn(1), m.__module_name__, m.ops.double(1, 2, 3), m.ops.k, m.hooks[0](), m.hooks[2].deep(), m.smapfn.f(), string(m.err2), string(m.err2.Cause), string(m.errs.e1), string(m.errs.e2), string(m.errs.e3), string(m.errarr[0]), string(m.errarr[1]), string(m.serrs.a), string(m.serrs.b), m[\"\"], m[\" \"], m[\"ключ\"], m.map[\"\"], m.smapkeys[\"\"], m.smapkeys.a, len(m.smapkeys), len(m.map)]\nm.arr[0] = 99\nm.map.k = 98\nreturn p ? r : [import(\"synth\").arr, import(\"synth\").map]\n"
+const c04synthUser = "global L\nparam p\nm := import(\"synth\")\nr := [m.izero, m.ione, m.uzero, m.fzero, m.fneg, m.czero, m.ca, m.sempty, m.s, m.t, m.f, m.undef, m.bytes, m.bempty, m.arr, m.aempty, m.map, m.mempty, string(m.err), m.sync, m.fn(1, 2), m.bfn(1), m.__module_name__, m.ops.double(1, 2, 3), m.ops.k, m.hooks[0](), m.hooks[2].deep(), m.smapfn.f(), string(m.err2), string(m.err2.Cause), string(m.errs.e1), string(m.errs.e2), string(m.errs.e3), string(m.errarr[0]), string(m.errarr[1]), string(m.serrs.a), string(m.serrs.b), m[\"\"], m[\" \"], m[\"ключ\"], m.map[\"\"], m.smapkeys[\"\"], m.smapkeys.a, len(m.smapkeys), len(m.map), typeName(m.syncempty), typeName(m.mempty), typeName(m.mempty2), typeName(m.syncempty2), m.nestedempties, typeName(m.nestedempties[0]), typeName(m.nestedempties[1]), typeName(m.nestedempties[2])]\nm.arr[0] = 99\nm.map.k = 98\nreturn p ? r : [import(\"synth\").arr, import(\"synth\").map]\n"
 
 func bytecodeKinds(c *core.Ctx, bc *ugo.Bytecode) (jumps int, nonScalar int) {
 	for _, k := range bc.Constants {
